@@ -87,7 +87,7 @@ class ValidateAa55:
     returns = "bool"
     pure = True
     raises_only = (PartialResponseException,)
-    raises_only_name = "C01_C04_raises_only"
+    raises_only_name = "C01_C02_C04_raises_only"
     cover = ("True", "False", "PartialResponseException")
 
     def ensures_C01_accept_implies_wellformed(data, response_type, result):
@@ -367,7 +367,7 @@ class RtuTrim:
     returns = "bytes"
     raises_only = ()
 
-    def ensures_C02_C12_payload_is_between_header_and_crc(raw_response, result):
+    def ensures_C02_C12_C14_payload_is_between_header_and_crc(raw_response, result):
         n = len(raw_response)
         return len(result) == (n - 7 if n >= 7 else 0) and same_bytes(result, raw_response[5:n - 2 if n >= 7 else 5])
 
@@ -380,7 +380,7 @@ class TcpTrim:
     returns = "bytes"
     raises_only = ()
 
-    def ensures_C02_C12_payload_is_everything_after_the_header(raw_response, result):
+    def ensures_C02_C12_C14_payload_is_everything_after_the_header(raw_response, result):
         n = len(raw_response)
         return len(result) == (n - 9 if n >= 9 else 0) and same_bytes(result, raw_response[9:n])
 
@@ -393,7 +393,7 @@ class Aa55Trim:
     returns = "bytes"
     raises_only = ()
 
-    def ensures_C02_C12_payload_is_between_header_and_checksum(raw_response, result):
+    def ensures_C02_C12_C14_payload_is_between_header_and_checksum(raw_response, result):
         n = len(raw_response)
         return len(result) == (n - 9 if n >= 9 else 0) and same_bytes(result, raw_response[7:n - 2 if n >= 9 else 7])
 
